@@ -35,11 +35,11 @@ def load_plugin(pid: str):
     return importlib.import_module(f"harness.{pid.lower()}").Plugin()
 
 
-def build(pid: str | None, clean=False):
+def build(pid: str | None, clean=False, depends=()):
     res = C.BuildResult()
     with C.BuildLock():
         C.regenerate(res)
-        C.scan_forbidden(res, pid)
+        C.scan_forbidden(res, None if pid is None else ["Prelude", "Gen", pid, *depends])
         if pid is None:
             C.make([], res, clean=clean)
             return res, True
@@ -153,7 +153,7 @@ def main():
     if args.replay:
         payload = json.loads(Path(args.replay).read_text())
         case = payload["case"] if "case" in payload else payload
-        res, run_ok = build(pid)
+        res, run_ok = build(pid, depends=getattr(plugin, "DEPENDS", ()))
         obs = plugin.run_impl(case)
         print("case:", json.dumps(case)[:2000])
         print("implementation observation:", json.dumps(obs, default=str)[:3000])
@@ -163,7 +163,7 @@ def main():
         return 0
 
     rng = random.Random(args.seed)
-    res, run_ok = build(pid, clean=(tier == "thorough" and os.environ.get("VERIF_NO_CLEAN") != "1"))
+    res, run_ok = build(pid, depends=getattr(plugin, "DEPENDS", ()), clean=(tier == "thorough" and os.environ.get("VERIF_NO_CLEAN") != "1"))
     if res.ok and (not res.theorems or len(res.discharged) != len(res.theorems)):
         res.ok = False
         res.failed_target = "no-theorems" if not res.theorems else "undischarged-theorems"
